@@ -3,7 +3,8 @@ From ClapModel Require Import Base.Bytes Base.Machine Base.Utf8 Lex.OsStrExtMode
 From ClapModel Require Import Parse.Cmd Parse.Build Parse.Valid Parse.Matcher Parse.Errors Parse.Validator Parse.Parser.
 From ClapModel Require Import ParseProofs.Actions ParseProofs.Unparse ParseProofs.UnparseProofs ParseProofs.UnparseTop
                               ParseProofs.UnparseSub ParseProofs.UnparseTrail ParseProofs.UnparseTree ParseProofs.UnparseIdx ParseProofs.UnparseIdxTop
-                              ParseProofs.UnparseX ParseProofs.UnparseXProofs ParseProofs.UnparseXTree ParseProofs.UnparseXTrail ParseProofs.UnparseYTree.
+                              ParseProofs.UnparseX ParseProofs.UnparseXProofs ParseProofs.UnparseXTree ParseProofs.UnparseXTrail ParseProofs.UnparseYTree
+                              ParseProofs.UnparseBridge.
 From Coq Require Import ZArith List Bool.
 From RecordUpdate Require Import RecordSet.
 Import RecordSetNotations.
@@ -63,3 +64,55 @@ Module YEx.
     raw_of [118] m = Some [[[49]]] /\ idx_of_m [97] m = Some [3; 4; 5; 6; 7].
   Proof. eexists. split; [vm_compute; reflexivity|]. repeat split. Qed.
 End YEx.
+
+Module HEx.
+  (** prog -v (Count)  --opt <o>  <pat> (allow_hyphen_values)  <num> (allow_negative_numbers)
+      line 1: prog -v --opt X --weird -5     ([--weird]: an unknown long -> [pat]; [-5] -> [num])
+      line 2: prog -x -v -7                  ([-x]: a cluster with an unknown short -> [pat]; [-v] is the flag; [-7] -> [num]) *)
+  Definition v : arg := (arg_new [118]) <| a_short := Some 118 |> <| a_action := Some ACount |>.
+  Definition o : arg := (arg_new [111]) <| a_long := Some [111; 112; 116] |> <| a_action := Some ASet |>.
+  Definition pat : arg := (arg_new [112]) <| a_hyphen := true |>.
+  Definition num : arg := (arg_new [110]) <| a_negnum := true |>.
+  Definition c0 : cmd := (cmd_new [112]) <| c_args := [v; o; pat; num] |>.
+  Definition bin : bytes := [112].
+  Definition c : cmd := build_self (with_bin c0 bin).
+  Definition hinv : invy :=
+    YLeaf [ItCluster [118] TNone; ItLongSep [111; 112; 116] [[88]]; ItPos [[45; 45; 119; 101; 105; 114; 100]]; ItPos [[45; 53]]].
+  Definition hinv2 : invy := YLeaf [ItPos [[45; 120]]; ItCluster [118] TNone; ItPos [[45; 55]]].
+  Definition raw_of (i : id) (m : matches) : option groups := opt_map m_raw (fm_get i (ms_args m)).
+  Definition idx_of_m (i : id) (m : matches) : option (list N) := opt_map m_indices (fm_get i (ms_args m)).
+  Example ex_hyps :
+    is_set s_no_binary_name c0 = false /\ valid (with_bin c0 bin) = true /\ wfy_inv c hinv = true /\ wfy_inv c hinv2 = true /\
+    user_conventionalx c0 = true /\
+    no_globals (build_recursive (S (S (depth c))) (with_bin c0 bin)) = true /\
+    render_invy hinv = [[45; 118]; [45; 45; 111; 112; 116]; [88]; [45; 45; 119; 101; 105; 114; 100]; [45; 53]] /\
+    render_invy hinv2 = [[45; 120]; [45; 118]; [45; 55]].
+  Proof. vm_compute. repeat split; reflexivity. Qed.
+  Example ex_parse : exists m m2,
+    parse_top c0 (bin :: render_invy hinv) = OOk m /\
+    raw_of [112] m = Some [[[45; 45; 119; 101; 105; 114; 100]]] /\ raw_of [110] m = Some [[[45; 53]]] /\ raw_of [111] m = Some [[[88]]] /\
+    raw_of [118] m = Some [[[49]]] /\ idx_of_m [112] m = Some [4] /\ idx_of_m [110] m = Some [5] /\
+    parse_top c0 (bin :: render_invy hinv2) = OOk m2 /\
+    raw_of [112] m2 = Some [[[45; 120]]] /\ raw_of [110] m2 = Some [[[45; 55]]] /\ raw_of [118] m2 = Some [[[49]]] /\
+    idx_of_m [112] m2 = Some [1] /\ idx_of_m [110] m2 = Some [3].
+  Proof. eexists. eexists. split; [vm_compute; reflexivity|]. do 6 (split; [reflexivity|]). split; [vm_compute; reflexivity|]. repeat split. Qed.
+
+  (** prog -v <cmd> <args>... ([args]: allow_hyphen_values, 1.. values), subcommand [sub]
+      line: prog -v C --foo -v -- sub      (from [--foo] on every token is a value of [args]: the known flag, [--], the subcommand name) *)
+  Definition cm : arg := arg_new [99].
+  Definition args : arg := (arg_new [97]) <| a_num := Some {| vmin := 1; vmax := usize_max |} |> <| a_hyphen := true |>.
+  Definition sub : cmd := cmd_new [115; 117; 98].
+  Definition m0 : cmd := (cmd_new [112]) <| c_args := [v; cm; args] |> <| c_subs := [sub] |>.
+  Definition mc : cmd := build_self (with_bin m0 bin).
+  Definition minv : invy := YHyp [ItCluster [118] TNone; ItPos [[67]]] [[45; 45; 102; 111; 111]; [45; 118]; [45; 45]; [115; 117; 98]].
+  Example ex_multi_hyps :
+    is_set s_no_binary_name m0 = false /\ valid (with_bin m0 bin) = true /\ wfy_inv mc minv = true /\ user_conventionalx m0 = true /\
+    no_globals (build_recursive (S (S (depth mc))) (with_bin m0 bin)) = true /\
+    render_invy minv = [[45; 118]; [67]; [45; 45; 102; 111; 111]; [45; 118]; [45; 45]; [115; 117; 98]].
+  Proof. vm_compute. repeat split; reflexivity. Qed.
+  Example ex_multi_parse : exists m,
+    parse_top m0 (bin :: render_invy minv) = OOk m /\ raw_of [99] m = Some [[[67]]] /\
+    raw_of [97] m = Some [[[45; 45; 102; 111; 111]; [45; 118]; [45; 45]; [115; 117; 98]]] /\
+    raw_of [118] m = Some [[[49]]] /\ idx_of_m [97] m = Some [3; 4; 5; 6] /\ ms_sub m = None.
+  Proof. eexists. split; [vm_compute; reflexivity|]. repeat split. Qed.
+End HEx.
